@@ -10,3 +10,5 @@ def check(ctx: Ctx) -> None:
     S.r_who_write_semaphore(ctx)
     S.r_atomic_slot_registry(ctx)
     S.r_is_full(ctx)
+    # the bound enforced is the size that was asked for - 0 included (shared with C15)
+    S.r_limit_is_assigned_value(ctx, "R01.7")
